@@ -167,19 +167,22 @@ def displayNameMatches (r : NameRole) (name reduced : Str) (isEmail isWildcard :
        || hasSuffix reduced ('.' :: r.displayName)
        || (isWildcard && reduced == r.displayName)))
 
-/-- the localhost block -/
-def localhostMatches (r : NameRole) (reduced emailDomain : Str) (isEmail isWildcard : Bool) : Bool :=
-  reduced == localhost || reduced == localdomain
+/-- the localhost block: the exact match compares the full name (so a wildcard over localhost is left to
+the `allow_subdomains` branch), the e-mail forms compare the domain -/
+def localhostMatches (r : NameRole) (name reduced emailDomain : Str) (isEmail isWildcard : Bool) : Bool :=
+  name == localhost || name == localdomain
   || (isEmail && emailDomain == localhost) || (isEmail && emailDomain == localdomain)
   || (r.allowSub &&
        (hasSuffix reduced ('.' :: localhost) || (isWildcard && reduced == localhost)
         || hasSuffix reduced ('.' :: localdomain) || (isWildcard && reduced == localdomain)))
 
-/-- the EnforceHostnames block: `true` = passes -/
-def hostnameOK (reduced wildLabel : Str) (isWildcard : Bool) : Bool :=
-  (reduced.isEmpty || (match idnaToASCII reduced with
-                       | none => false
-                       | some c => hostnameRegex c))
+/-- the EnforceHostnames block: `true` = passes.  An empty reduced name is only tolerated for a single-label
+wildcard (whose label is tested by the second conjunct): `local@` and `<wildcard label>.` are refused. -/
+def hostnameOK (name reduced wildLabel : Str) (isWildcard : Bool) : Bool :=
+  (if reduced.isEmpty then (isWildcard && !hasSuffix name ['.'])
+   else (match idnaToASCII reduced with
+         | none => false
+         | some c => hostnameRegex c))
   && (!isWildcard || leftWildLabel wildLabel)
 
 /-- one iteration of the loop of `validateNames` after its empty-name test: `true` = `continue` (accepted),
@@ -194,9 +197,9 @@ def validateNameBody (r : NameRole) (name : Str) : Bool :=
     | none => false
     | some (wildLabel, reduced) =>
       if isEmail && isWildcard then false
-      else if r.enforceHostnames && !hostnameOK reduced wildLabel isWildcard then false
+      else if r.enforceHostnames && !hostnameOK name reduced wildLabel isWildcard then false
       else if r.allowAnyName then true
-      else if r.allowLocalhost && localhostMatches r reduced emailDomain isEmail isWildcard then true
+      else if r.allowLocalhost && localhostMatches r name reduced emailDomain isEmail isWildcard then true
       else if r.allowTokenDisplayName && displayNameMatches r name reduced isEmail isWildcard then true
       else (r.allowedDomains.filter (fun d => !d.isEmpty)).any
              (domainMatches r name reduced emailDomain isEmail isWildcard)
@@ -295,12 +298,5 @@ def hostShape (host : Str) : Prop :=
   | [] => False
   | w :: rest =>
     (if containsCh host '*' then leftWildLabel w = true else isLabel w = true) ∧ ∀ l ∈ rest, isLabel l = true
-
-/-- the one shape the unchanged code accepts beyond `nameAllowed`: a wildcard over `localhost` /
-`localdomain` under `allow_localhost` alone (no `allow_subdomains`) -/
-def wildcardLocalhost (r : NameRole) (name : Str) : Prop :=
-  r.allowLocalhost = true ∧ r.allowSub = false ∧ r.allowWildcard = true ∧
-  ∃ w, countCh w '*' = 1 ∧ containsCh w '.' = false ∧
-    (name = w ++ '.' :: localhost ∨ name = w ++ '.' :: localdomain)
 
 end Obao.PKI
